@@ -115,6 +115,9 @@ def unit_ret(chk, prog, only=None):
                 chk.record("UNIT-RET.exempt", site, "not a quaternion: " + why)
             elif r["unit"]:
                 chk.record("UNIT-RET", site, "returned value carries UNIT on this path")
+            elif _via_private_helper(f, r):
+                # the value comes out of a private helper whose own returns could not be proved unit from the facts passed in: no verdict, not an alarm
+                chk.error("UNIT-RET: %s returns the result of a private helper (%s); its unit norm could not be established through the call (cannot decide)" % (key, r["text"][:60]))
             else:
                 chk.record("UNIT-RET", site, "returned value carries UNIT on this path", verdict="VIOLATION")
                 chk.finding("UNIT-RET", f.module.rel, f.qname, "non-unit return: " + r["text"],
@@ -128,6 +131,21 @@ def unit_ret(chk, prog, only=None):
         if seen == 0:
             chk.error("UNIT-RET: %s has no value-returning path" % key)
     return n_paths
+
+
+def _via_private_helper(f, r):
+    """the returned expression is (or is a local bound to) a call of a private method/function: self._x(...), Cls._x(...), _x(...)"""
+    import re as _re
+    pat = _re.compile(r"(?:\bself\.|\b[A-Z]\w*\.|(?<![\w.]))_[a-z]\w*\(")
+    text = r["text"]
+    if pat.search(text):
+        return True
+    m = _re.match(r"return (\w+)$", text.strip())
+    if m:
+        for s_ in ast.walk(f.node):
+            if isinstance(s_, ast.Assign) and any(isinstance(t, ast.Name) and t.id == m.group(1) for t in s_.targets) and pat.search(ast.unparse(s_.value)):
+                return True
+    return False
 
 
 def tilt_unit(prog):
